@@ -365,6 +365,21 @@ class Planner:
         steps.append(_ex(rng, bp))
         self.add("overlap", rng, steps, "warm", init)
 
+    def save_during_run(self, i):
+        """a source file of the path dependency is SAVED WHILE pavexc RUNS (an editor, a formatter, `git
+        checkout`): the process is parked by the shim at a seeded cache write, the edit is applied, the
+        process goes on. What that run itself produces is not judged (its inputs changed under it); every
+        LATER run on the then unchanged inputs must produce the golden bytes of the edited sources."""
+        rng = self.rng("save_during_run", i)
+        bp = rng.choice(sorted(b for b in self.corpus["blueprints"] if self.corpus["blueprints"][b].get("dep_routes")))
+        e = rng.choice(["dep_sig", "dep_outside_src", "dep_symlinked", "move_a_b"])
+        steps = [{"op": "evict", "what": "crate", "name": "simdep"}, {"op": "evict", "what": "crate", "name": "pavex"}]
+        a = _ex(rng, bp, expect_fail="inputs-changed-mid-run")
+        steps.append({"op": "overlap_exec", "phase": "cache", "k_draw": rng.below(1 << 30), "exec": a, "peer_edit": e})
+        steps.append(_ex(rng, bp, diag=_diag_gen(rng)))
+        steps.append(_ex(rng, bp, mode="check"))
+        self.add("save_during_run", rng, steps, "warm")
+
     def moved_blueprint(self, i, bp=None):
         """a blueprint serialised on another checkout: its source locations name files that are not
         there, so every diagnostic that wants a snippet meets an I/O error"""
@@ -447,6 +462,8 @@ class Planner:
                 self.sibling(i)
             for i in range(4 if q else 50):
                 self.evict(i)
+            for i in range(3 if q else 30):
+                self.save_during_run(i)
             for i in range(6 if q else 72):
                 self.fault(i)
             for i in range(1 if q else 4):
